@@ -62,6 +62,7 @@ class Check:
         self.exhaustive_domains: list[str] = []
         self.extra: dict = {}
         self.analysis_errors: list[str] = []
+        self.write_evidence = True
 
     # -- recording --------------------------------------------------------------------------------
     def ok(self, rule: str, node_or_where, what: str, **detail):
@@ -143,7 +144,8 @@ class Check:
             with open(rp, "w") as fh:
                 json.dump(d, fh, indent=1, default=str)
             replay_paths.append(rp)
-        self._write_evidence(wall, len(unlisted))
+        if self.write_evidence:
+            self._write_evidence(wall, len(unlisted))
         if not self.quiet:
             for rule, n in sorted(self.by_rule.items()):
                 print(f"  rule {rule}: {n} instance(s) hold")
